@@ -32,7 +32,7 @@ DEFAULT_KNOBS = {
     "p_shadow": 0.5, "p_match": 0.0, "p_with": 0.0, "p_order_sensitive": 0.0,
     "body_len": (2, 5), "p_module_level_call": 0.4, "p_decoy": 0.5, "p_aug_attr": 0.3,
     "p_while": 0.2, "p_tuple_assign": 0.2, "p_annot": 0.15, "multi_call_sites": 0.0,
-    "p_instance_global": 0.2,
+    "p_instance_global": 0.2, "p_nested_in_method": 0.3, "p_parent_relative": 0.5,
 }
 
 PROFILES = {
@@ -521,7 +521,11 @@ class Gen:
             if use_nonlocal and cell != isig.params[0][0]:
                 body.append(f"{pad}        nonlocal {cell}")
                 body.append(f"{pad}        {cell} += {isig.params[0][0]}")
-            body.append(f"{pad}        return {self.int_expr(ictx, 1)}")
+            clash = [t for t in ictx.ints if "." not in t and "(" not in t and t in getattr(self, "_cur_cattrs", ())]
+            if clash and self_name:
+                body.append(f"{pad}        return {self.rnd.choice(clash)} + {self.int_expr(ictx, 1)}")
+            else:
+                body.append(f"{pad}        return {self.int_expr(ictx, 1)}")
             ctx.funcs.append((inner_name, isig))
         body += self.body(ctx, pool, indent + 1, self.rng("body_len"), ret=True)
         lines += body
@@ -534,7 +538,11 @@ class Gen:
         # class attributes (class-body scope: later ones may read earlier ones)
         cctx = base_ctx.copy()
         for _ in range(self.rnd.randint(0, 2)):
-            a = self.fresh(VNAMES + ["K", "LIMIT"], taken)
+            reuse = [g for g in mod.gvars if g not in taken]
+            if reuse and self.p("p_shadow"):
+                a = self.rnd.choice(reuse)       # class attribute spelled like a module global
+            else:
+                a = self.fresh(VNAMES + ["K", "LIMIT"], taken)
             taken.add(a)
             lines.append(f"    {a} = {self.int_expr(cctx, 1)}")
             ci.cattrs.append(a)
@@ -568,7 +576,10 @@ class Gen:
             taken.add(mn)
             msig = self.gen_sig(mn, taken_params=["self"], method=True)
             self.fill_defaults(msig, mod, base_ctx)
-            lines += self.gen_function(mod, base_ctx, msig, 1, "self", extra_ctx=selfctx, allow_nested=False)
+            self._cur_cattrs = set(ci.all_cattrs())
+            lines += self.gen_function(mod, base_ctx, msig, 1, "self", extra_ctx=selfctx,
+                                       allow_nested=self.p("p_nested_in_method"))
+            self._cur_cattrs = set()
             msig.kind, msig.owner = "method", ci
             ci.methods.append(msig)
         if self.p("p_property"):
@@ -610,6 +621,9 @@ class Gen:
             styles += ["from_pkg_import_mod", "from_pkg_import_mod_as"]
         if mod.package is not None and target.package == mod.package and self.p("p_relative"):
             styles = ["rel_from_names", "rel_import_mod", "rel_from_names_as"]
+        elif (mod.package is not None and target.package is not None and "." in mod.package
+              and mod.package.rsplit(".", 1)[0] == target.package and self.p("p_parent_relative")):
+            styles = ["parent_rel_import_mod", "parent_rel_from_names"]
         if self.p("p_star_import") and (target.funcs or target.gvars):
             styles = ["star"]
         style = rnd.choice(styles)
@@ -693,6 +707,20 @@ class Gen:
                 lines.append(f"from {src} import {txt}")
             expose_names(pairs)
             mod.imports.append((style, target, [ln for _, ln in pairs]))
+        elif style == "parent_rel_import_mod":
+            if leaf in taken:
+                return False
+            lines.append(f"from .. import {leaf}")
+            expose_module(leaf)
+            mod.imports.append((style, target, leaf))
+        elif style == "parent_rel_from_names":
+            names = [f.name for f in exported_f] + exported_v + [c.name for c in exported_c]
+            pick = [n for n in rnd.sample(names, min(2, len(names))) if n not in taken] if names else []
+            if not pick:
+                return False
+            lines.append(f"from ..{leaf} import " + ", ".join(pick))
+            expose_names([(n, n) for n in pick])
+            mod.imports.append((style, target, list(pick)))
         elif style in ("from_pkg_import_mod", "from_pkg_import_mod_as", "rel_import_mod"):
             al = leaf if style != "from_pkg_import_mod_as" else self.fresh(["m", "lib", "aux"], taken)
             if al in taken:
@@ -863,8 +891,8 @@ class Gen:
             if self.p("nested_package"):
                 inner = rnd.choice([p for p in PNAMES if p != pk] + ["inner"])
                 files[f"{pk}/{inner}/__init__.py"] = ""
-                s = rnd.choice(SUBMOD)
-                pk_plan.append((f"{pk}.{inner}.{s}", f"{pk}/{inner}/{s}.py", f"{pk}.{inner}"))
+                for s in rnd.sample(SUBMOD, rnd.randint(1, 2)):
+                    pk_plan.append((f"{pk}.{inner}.{s}", f"{pk}/{inner}/{s}.py", f"{pk}.{inner}"))
             plan[pos:pos] = pk_plan
         for dotted, path, package in plan:
             m = self.gen_module(dotted, path, package, list(self.mods))
